@@ -1,16 +1,22 @@
 (* C17 - a cleared VM behaves like a fresh one; runs are deterministic and do not leak.  PARTIAL.
-   Statements only; proofs are in Cao.VmProofs (model Cao.Vm).
+   Statements only; proofs are in Cao.VmProofs, Cao.VmClearProofs, Cao.VmClearProofs2 (model Cao.Vm).
    Proved: what `clear` leaves is, on every component a later run can read, what a new Vm has (C17_clear_is_fresh);
    `run` installs its own budget; a completed run leaves no call frame, so repeated runs never fail for lack of
    frames (finding A-18, fixed); determinism.
-   NOT proved (claimed by the correspondence run only, oracle code 2 of C17Check.v: every step that starts with
-   `clear` is compared with the same step on a new Vm): `run P (clear s) = run P fresh` for all histories. The
-   missing lemma is that no instruction reads a value-stack slot at or above the high-water mark of the current
-   run (dead slots keep their old contents after `clear`; `Return` can raise the height again, but only up to a
-   height the same run had reached before). The allocator part (allocated = 0, threshold reset) is
-   AllocProofs.clear_is_fresh on the allocator model. *)
+   run P (clear s) = run P fresh, PARTIAL (C17_run_after_clear_partial): `clear` leaves the old contents in the dead
+   slots of the value stack; the two runs are related by [Sim]: same height, same contents below a HIGH-WATER MARK
+   (every slot below it has been written by both Vms with the same value during the current run; it also bounds
+   every frame offset and every open-upvalue location), everything else equal. Proved for ALL programs (bytecode):
+   no ValueStack operation reads a slot at or above the high-water mark before writing it (C17_stack_ops_agree);
+   every instruction except the two that can enter a native function preserves the relation
+   (C17_step_after_clear_partial), and so do run_function, the dispatch loop, nested runs and `run` - PROVIDED
+   entering a native function preserves it ([natives_ok]: the seventeen native bodies of the menu with their typed
+   wrappers, min/max/sort with their callbacks). That hypothesis is the part that is NOT proved; it is claimed by the
+   correspondence run only (oracle code 2 of C17Check.v: every step that starts with `clear` is compared with the
+   same step on a new Vm). The allocator part (allocated = 0, threshold reset) is AllocProofs.clear_is_fresh on the
+   allocator model, and the counter oracle of C17Check.v on histories under a small memory limit. *)
 From Coq Require Import NArith List Lia.
-From Cao Require Import Stacks Vm VmProofs.
+From Cao Require Import Stacks Vm VmProofs VmClearProofs VmClearProofs2.
 Import ListNotations.
 
 Theorem C17_clear_is_fresh : forall s,
@@ -43,3 +49,33 @@ Theorem C17_deterministic : forall F bld N P s r1 r2,
   run F bld N P s = r1 -> run F bld N P s = r2 -> r1 = r2.
 Proof. exact run_deterministic. Qed.
 Print Assumptions C17_deterministic.
+
+(* no ValueStack operation reads a slot at or above the high-water mark before writing it: on two stacks that agree
+   below hw every operation returns the same output and leaves stacks that agree below max hw (new height);
+   clear_until(h) needs h <= hw *)
+Theorem C17_stack_ops_agree : forall (V : Type) (vnil : V) hw (a b : vstack V) (o : vop V),
+  agree vnil hw a b -> op_ok hw o ->
+  snd (vs_step vnil a o) = snd (vs_step vnil b o) /\
+  agree vnil (Nat.max hw (vcount (fst (vs_step vnil a o)))) (fst (vs_step vnil a o)) (fst (vs_step vnil b o)).
+Proof. exact vs_step_agree. Qed.
+Print Assumptions C17_stack_ops_agree.
+
+(* one instruction on two states related by Sim, for every program and every nested-run function [re]: every
+   instruction except CallNative (4) and CallFunction (11, whose callee may be a native function value) *)
+Theorem C17_step_after_clear_partial : forall F bld P re ip a b,
+  Sim a b ->
+  nth (N.to_nat ip) (p_code P) 255%N <> 4%N -> nth (N.to_nat ip) (p_code P) 255%N <> 11%N ->
+  sres_sim (step F bld P re ip a) (step F bld P re ip b).
+Proof. exact step_sim_partial. Qed.
+Print Assumptions C17_step_after_clear_partial.
+
+(* run P (clear s) against run P on a new Vm (same host log / ghost counter / leftover budget, which are not VM
+   state): same outcome (error payload and trace included), final states related by Sim. MISSING: [natives_ok]. *)
+Theorem C17_run_after_clear_partial : forall F bld N P s,
+  natives_ok F P ->
+  length (vdata (st_stack s)) = stack_size ->
+  let fresh := mkState (vs_new VNil stack_size) [] [] [] None (st_log s) (st_count s) (st_rem s) in
+  fst (run F bld N P (clear_state s)) = fst (run F bld N P fresh) /\
+  Sim (snd (run F bld N P fresh)) (snd (run F bld N P (clear_state s))).
+Proof. exact run_after_clear_partial. Qed.
+Print Assumptions C17_run_after_clear_partial.
